@@ -116,18 +116,9 @@ func runC16(c *Ctx) {
 	} else {
 		want := map[string]string{"printf": "lang.nativePrintf", "json": "lang.nativeJson", "num": "lang.nativeNum"}
 		got := map[string]string{}
-		allInstrs(reg, func(in ssa.Instruction) {
-			if mu, ok := in.(*ssa.MapUpdate); ok {
-				if name, ok := constString(mu.Key); ok {
-					r := p.Render(mu.Value)
-					for _, fn := range []string{"lang.nativePrintf", "lang.nativeJson", "lang.nativeNum"} {
-						if strings.Contains(r, "NativeFn: "+fn) && strings.Contains(r, "Tag: ValueNativeFn") {
-							got[name] = fn
-						}
-					}
-				}
-			}
-		})
+		for _, ev := range builtinRegistrations(p) {
+			got[ev.name] = ev.fn
+		}
 		for name, fn := range want {
 			c.check(got[name] == fn, "R1", "builtin-registration "+name, p.Pos(reg.Pos()), name+" -> "+fn, fmt.Sprintf("builtin %q is registered as %q, expected %s with tag ValueNativeFn", name, got[name], fn))
 		}
@@ -245,4 +236,65 @@ func stringIndexArm(c *Ctx, rule string) {
 	})
 	miss, extra := diffSets(got, want)
 	c.check(len(miss)+len(extra) == 0, rule, "string-element", p.Pos(gm.Pos()), "s[i] = string(byte i) in a fresh cell, null outside the string", fmt.Sprintf("indexing a string yields {%s}; documented: a fresh null cell, or a fresh cell with NewString(string(s[i]))", keysOf(got)))
+}
+
+// builtinRegistration: one store `frame[name] = cell of Value{Tag: ValueNativeFn, NativeFn: fn}` with a
+// constant name — written out, or made by a helper `define(e, name, fn)` whose name and function are
+// the arguments of a call.
+type builtinRegistration struct {
+	name, fn string
+	at       ssa.Instruction // the store, or the call of the helper
+}
+
+func builtinRegistrations(p *Program) []builtinRegistration {
+	var out []builtinRegistration
+	for _, fn := range p.Funcs {
+		if !p.InLang(fn) || p.inTestFile(fn) {
+			continue
+		}
+		allInstrs(fn, func(in ssa.Instruction) {
+			mu, ok := in.(*ssa.MapUpdate)
+			if !ok {
+				return
+			}
+			r := p.Render(mu.Value)
+			if !strings.Contains(r, "Tag: ValueNativeFn") || !strings.Contains(r, "NativeFn: ") {
+				return
+			}
+			if name, ok := constString(mu.Key); ok {
+				for _, nf := range []string{"lang.nativePrintf", "lang.nativeJson", "lang.nativeNum"} {
+					if strings.Contains(r, "NativeFn: "+nf+",") || strings.Contains(r, "NativeFn: "+nf+"}") {
+						out = append(out, builtinRegistration{name, nf, mu})
+					}
+				}
+				return
+			}
+			// name and function are parameters of a helper: one event per call site
+			kp, isKP := mu.Key.(*ssa.Parameter)
+			if !isKP {
+				return
+			}
+			ki, fi := -1, -1
+			for i, prm := range fn.Params {
+				if prm == kp {
+					ki = i
+				}
+				if strings.Contains(r, "NativeFn: "+p.Render(prm)+",") || strings.Contains(r, "NativeFn: "+p.Render(prm)+"}") {
+					fi = i
+				}
+			}
+			if ki < 0 || fi < 0 {
+				return
+			}
+			for _, cs := range p.CallSitesOf(fn) {
+				if p.inTestFile(cs.Parent()) {
+					continue
+				}
+				if name, ok := constString(cs.Common().Args[ki]); ok {
+					out = append(out, builtinRegistration{name, p.Render(cs.Common().Args[fi]), cs})
+				}
+			}
+		})
+	}
+	return out
 }
